@@ -252,6 +252,17 @@ func (b *boundsCtx) implicit() []lin {
 	var out []lin
 	for k, v := range b.atoms {
 		one := lin{t: map[string]int64{k: 1}}
+		// the range of a narrow unsigned type: a byte indexes a [256]T table safely
+		if v.Type() != nil {
+			if bt, isB := v.Type().Underlying().(*types.Basic); isB {
+				switch bt.Kind() {
+				case types.Uint8:
+					out = append(out, one, lin{t: map[string]int64{k: -1}, k: 255})
+				case types.Uint16:
+					out = append(out, one, lin{t: map[string]int64{k: -1}, k: 65535})
+				}
+			}
+		}
 		switch x := v.(type) {
 		case *CallV:
 			switch {
